@@ -263,11 +263,12 @@ def gen(rs: int, index: int, tier: str) -> Dict[str, Any]:
             k = "pos"
         else:
             k = re_.choice(["neg", "gneg", "trunc", "foreign"])
-        ecu[str(d)] = {"kind": k, "values": gen_values(re_, layout), "nrc": re_.choice([0x11, 0x12, 0x31]),
+        ecu[str(d)] = {"kind": k, "values": gen_values(re_, layout), "nrc": re_.choice([0x11, 0x12, 0x31, 0x78, 0x78]),
                        "cut": re_.randint(1, 2)}
     ra = S.rng("abandon")
     abandon = [ra.choice([0, 0, 1, 2, 3]), ra.random() < 0.5] if ra.random() < 0.35 else None
     return {"kind": kind, "variants": variants, "did_layout": did_layout, "ecu": ecu, "abandon": abandon,
+            "field_max": S.rng("fieldmax").choice([None, 3, 3]),
             "reuse_buffer": S.rng("transport").random() < 0.3}
 
 
@@ -289,7 +290,8 @@ def build_candidates(cfg: Dict[str, Any]) -> List[Any]:
         big = b.dop("big", b.slt("A_FLOAT64", 64))
         item_t = b.structure("item_t", [b.value("v", u8)])
         info_t = b.structure("info_t", [b.value("type", u8), b.value("rev", u8)])
-        items_f = b.eopdu_field("items_f", item_t)
+        # MAX-NUMBER-OF-ITEMS = the largest number of items any response carries (a completely filled field)
+        items_f = b.eopdu_field("items_f", item_t, max_items=cfg.get("field_max"))
         inner_t = b.structure("inner_t", [b.value("code", u8)])
         outer_t = b.structure("outer_t", [b.value("inner", inner_t), b.value("list", items_f)])
         b.response("gnr", [b.coded_const("sid", 0x7F), b.value("rq_sid", u8), b.value("nrc", u8)],
@@ -327,7 +329,7 @@ def build_candidates(cfg: Dict[str, Any]) -> List[Any]:
                 body = [b.value("id", u8), b.value("sup", u8)]
             pos.append(b.response(f"rs_{nm}", head + body))
             ng = b.response(f"ng_{nm}", [b.coded_const("sid", 0x7F), b.coded_const("rq_sid", 0x22),
-                                          b.nrc_const("nrc", [0x11, 0x12, 0x31])], "NEGATIVE")
+                                          b.nrc_const("nrc", [0x11, 0x12, 0x31, 0x78])], "NEGATIVE")
             b.service(nm, rq, pos, [ng])
         if cfg["kind"] == "ecu":
             pats = [EcuVariantPattern(matching_parameters=[
